@@ -406,7 +406,7 @@ def kinds(tier):
     ]
 
 
-REGISTERED = False
+REGISTERED = True
 LEVEL_TEXT = ("Generated trees are committed for real and exported in every "
               "format under generated root / subdir settings; the archives are "
               "read back with the standard library and compared member by "
